@@ -129,3 +129,16 @@ Example C03_bad_key_nonvacuous :
   keys_ok ex_bad = false /\ zser ex_bad 7 = Err KeyMustBeAString /\
   zser ex_bad 6 = Err BufferTooSmall /\ ref_enc ex_bad = Some [123;34;97;34;58;49;44;34;116;114;117;101;34;58;110;117;108;108;125].
 Proof. repeat split; vm_compute; reflexivity. Qed.
+
+(* Non-vacuity for the two call shapes that depend on serde's defaults: a Display value written in
+   three fragments through collect_str as a map key (joined, then escaped as one string), and a
+   value whose Serialize impl consults is_human_readable() (the human-readable branch is taken). *)
+Definition ex_hr : sval :=
+  SMap (Some 1) [(SCollectStr [[50; 48]; [45]; [195; 169; 10]],
+                  SHumanReadable (SStr [49; 46; 50]) (STuple 2 [SInt U8 1%Z; SInt U8 2%Z]))].
+Example C03_defaults_nonvacuous :
+  human_readable = true /\ keys_ok ex_hr = true /\
+  zser ex_hr 17 = Ok [123;34;50;48;45;195;169;92;110;34;58;34;49;46;50;34;125] /\
+  zser ex_hr 16 = Err BufferTooSmall /\
+  ref_enc ex_hr = Some [123;34;50;48;45;195;169;92;110;34;58;34;49;46;50;34;125].
+Proof. repeat split; vm_compute; reflexivity. Qed.
